@@ -6,6 +6,10 @@ from numba import njit, prange, types
 
 CONST_C_VAL = 299792458.0  # Speed of light in m/s (astropy.constants.c.value)
 
+# fastmath without "arcp": a mean must divide by the group size, not multiply by its rounded reciprocal
+# (sum / 49 of 49 equal integer samples has to be that integer before it is reduced to the output depth)
+FASTMATH_EXACT_DIV = {"nnan", "ninf", "nsz", "contract", "afn", "reassoc"}
+
 
 @njit("void(u1[::1], u1[::1])", cache=True, fastmath=True, locals={"pos": types.i8})
 def unpack1_8_big(array: np.ndarray, unpacked: np.ndarray) -> None:
@@ -163,7 +167,7 @@ def pack4_8_little(array: np.ndarray, packed: np.ndarray) -> None:
         packed[ii] = (array[pos + 1] << 4) | array[pos + 0]
 
 
-@njit(cache=True, fastmath=True, locals={"temp": types.f8})
+@njit(cache=True, fastmath=FASTMATH_EXACT_DIV, locals={"temp": types.f8})
 def downsample_1d_mean(array: np.ndarray, factor: int) -> np.ndarray:
     """Downsample a 1D array by averaging over bins.
 
@@ -194,7 +198,7 @@ def downsample_1d_mean(array: np.ndarray, factor: int) -> np.ndarray:
     return result
 
 
-@njit(cache=True, fastmath=True, locals={"temp": types.f8})
+@njit(cache=True, fastmath=FASTMATH_EXACT_DIV, locals={"temp": types.f8})
 def downsample_2d_mean_flat(
     array: np.ndarray,
     factor1: int,
@@ -246,13 +250,13 @@ def downsample_2d_mean_flat(
 downsample_1d_mean_parallel = njit(
     downsample_1d_mean.py_func,
     parallel=True,
-    fastmath=True,
+    fastmath=FASTMATH_EXACT_DIV,
     locals={"temp": types.f8},
 )
 downsample_2d_mean_parallel = njit(
     downsample_2d_mean_flat.py_func,
     parallel=True,
-    fastmath=True,
+    fastmath=FASTMATH_EXACT_DIV,
     locals={"temp": types.f8},
 )
 
